@@ -9,7 +9,7 @@ EXPLANATION = "inductive step of each sequence operation from an arbitrary valid
 def A(name, op, l, tiers, **kw):
     lm = 2 * l + 2
     us = ["Type_Scan.0:24", "Type_Scan.1:24", "strcmp.0:24", "owns.0:26", "owns.1:%d" % (lm + 2), "owns.2:%d" % (lm + 2), "elem_live_count.0:26",
-          "vcw_new.0:60", "vcw_realloc.0:60", "vcw_check.0:60", "vcw_check.1:6", "vcw_find.0:6", "vcw_live.0:6", "Array_Sort_Part:5", "Array_Sort_Partition.0:6",
+          "vcw_new.0:60", "vcw_realloc.0:60", "vcw_check.0:60", "vcw_check.1:6", "vcw_find.0:6", "vcw_live.0:6", 
           "memcpy.0:8", "memset.0:8", "verif_memmove_w.0:%d" % (5 * (l + 1) + 2), "verif_memmove_w.1:%d" % (5 * (l + 1) + 2), "snapshot.0:%d" % (5 * lm + 2), "verif_on_throw.0:%d" % (5 * lm + 2)]
     two = name in ("concat", "assign")
     vcw = 5 * (2 * l + 3) if two or name in ("push", "push_at", "resize", "init") else 5 * (l + 2)
@@ -23,6 +23,7 @@ def AN(name, op, l, nlen, spare, tiers, **kw):
     o = A(name, op, l, tiers, **kw)
     o.name = "array.%s.n%d%s" % (name, nlen, "+%d" % spare if spare else "")
     o.defs += ["NLEN=%d" % nlen, "NSPARE=%d" % spare]
+    o.unwindset = list(o.unwindset) + ["Array_Sort_Part:%d" % (nlen + 1), "Array_Sort_Partition.0:%d" % (nlen + 2)]
     o.desc = "Array %s step from an arbitrary valid state of length %d with %d spare slots" % (name, nlen, spare)
     return o
 OBLIGATIONS = [A("init", "OP_INIT", 3, P, timeout=600), AN("pop_empty", "OP_POP_EMPTY", 3, 0, 0, P, timeout=600), AN("pop_empty", "OP_POP_EMPTY", 3, 0, 1, P, timeout=600)]
@@ -47,7 +48,10 @@ for n_, o_ in OPS:
                 o.defs.append("MLEN=%d" % ml)
                 OBLIGATIONS.append(o)
             continue
-        OBLIGATIONS.append(AN(n_, o_, 3, nlen, 1 if nlen == 2 else 0, P, timeout=600))
+        o = AN(n_, o_, 3, nlen, 1 if nlen == 2 else 0, P, timeout=600)
+        if n_ == "sort" and nlen == 3:
+            o.tiers = ("thorough",); o.mem_gb = 20; o.timeout = 3600
+        OBLIGATIONS.append(o)
 LEVEL_TEXT = ("Bounded model checking of the real Array.c: every operation as an inductive step from an arbitrary valid state (symbolic element values, duplicates, spare capacity) "
               "against a reference sequence, one obligation per pre-state length 0..3 (and per index for the element-shifting operations, per operand length for concat/assign).")
 LEVEL_NOTE = ("Trusted: cbmc; probe element callbacks (eq/cmp/assign/destruct/swap) with an ownership ledger; storage malloc/realloc/free replaced by the fixed-capacity model lib/env_vcapw.c. "
